@@ -110,7 +110,7 @@ bool UndoHistoryImpl::mergeEvent(time_t now, const char *msg, char *buf, size_t 
         return false;
     for(int i=history_pos-1; i>=0; --i) {
         if(difftime(now, history[i].first) > 2)
-            break;
+            continue;
         if(!strcmp(getUndoAddress(msg),
                     getUndoAddress(history[i].second)))
         {
